@@ -259,10 +259,10 @@ pub fn push_trace(args: &[String]) -> i32 {
             let val = guarded(|| {
                 let st = build_state_ordered_decoy(&sv, &max, &inputs, limit, rotation, rotation % 2 == 1).expect("state");
                 let o = match st.run_to_completion() {
-                    Ok(mut s) => json!({"status": "ok", "stacks": format!("{:?}", (s.stdout_string().ok(), stacks_to_json(&s).map(|v| v.to_string())))}),
+                    Ok(mut s) => json!({"status": "ok", "stacks": format!("{:?}", (crate::vm::read_output(&mut s), stacks_to_json(&s).map(|v| v.to_string())))}),
                     Err(fe) => {
                         let mut s = fe.into_state();
-                        json!({"status": "fatal", "stacks": format!("{:?}", (s.stdout_string().ok(), stacks_to_json(&s).map(|v| v.to_string())))})
+                        json!({"status": "fatal", "stacks": format!("{:?}", (crate::vm::read_output(&mut s), stacks_to_json(&s).map(|v| v.to_string())))})
                     }
                 };
                 o
